@@ -14,37 +14,46 @@ EXPLANATION = (
     "Every function of generate_code.py is evaluated by the abstract evaluator (sa.symex) on concrete abstract records "
     "(indices, contractions, terms, objects, sympy numbers as a small exact domain c*sqrt(n), permutation operators; the "
     "configured tensor names are set to non-default values) and the *emitted text* is executed by an independent "
-    "interpreter (sa/rules/emitted.py: brute-force einsum, contract, dot_product, labelled outer products, permutation "
-    "operators, comments) on deterministic pseudo-random tensor values; the value is compared with the value of the "
-    "expression computed from the term structure for every assignment of the target indices in the requested order. "
+    "interpreter (sa/rules/emitted.py: brute-force einsum, contract, dot_product, labelled products, C++ integer "
+    "division, permutation operators, comments) on deterministic pseudo-random tensor values; the value is compared "
+    "with the value of the expression computed from the term structure for every assignment of the target indices in "
+    "the requested order. No check looks at source text, local names or statement layout. "
     "R17a: format_contraction / format_einsum_contraction / format_libtensor_contraction on a table of contractions "
-    "(reorder, diagonal, trace, pair, hyper-contraction, outer product, inner product, scalar factor, nested inner "
-    "contraction from the cache) evaluate to sum_contracted prod operands in target order (einsum) / by labels "
-    "(libtensor); a missing inner contraction raises, libtensor partial traces and index-free products are refused "
-    "with NotImplementedError. R17b: format_contraction, format_scaling_comment, format_prefactor refuse an unknown "
-    "backend with NotImplementedError and _format_python_prefactor/_format_cpp_prefactor refuse numbers outside "
-    "integer/rational/sqrt/products; the scaling comment starts with the backend's comment token. R17c: decision "
-    "table of translate_adcc_names / translate_libadc_names over configured and look-alike tensor names (equality with "
-    "<configured name>_<block>, never a prefix). R17d: format_prefactor on a table of integers, rationals, square roots, "
-    "products, signs, symbols with exponents for both backends evaluates to the term's prefactor; "
-    "format_perm_symmetry on a table of symmetries denotes 1 + sum factor*prod P (factors other than +-1 refused). "
-    "R17e: generate_code evaluated end to end with exploit_perm_sym, optimize_contractions, unoptimized_contraction "
-    "and term_memory_requirements as recorded black boxes: the symmetry analysis gets the unmodified targets/spin/"
-    "bra-ket symmetry/tensor class, the scheme builders get the separator-free targets, spin and limits, the builder is "
-    "selected by the flag, non-Expr input is refused, schemes with more than one outer contraction are refused, and the "
-    "whole program (all symmetry classes, all terms, pure-number terms, inner contractions before the outer one) "
-    "evaluates to sum_classes O_class(sum_terms prefactor * symbols * contraction) for both backends. R17f: "
-    "unoptimized_contraction evaluated on terms with exponents and prefactors yields one hyper-contraction whose "
-    "operand list is the term's tensors/deltas exponent-many times (names and indices aligned) with the requested "
-    "target indices. Also R16a/R16b/R16g (scheme shape and closure), which the emitted program depends on.")
+    "(reorder, diagonal, trace, pair, hyper-contraction, outer product, inner product, scalar factor, general-space "
+    "indices, look-alike names, nested inner contraction from the cache) evaluate to sum_contracted prod operands in "
+    "target order (einsum) / by labels (libtensor); a missing inner contraction raises, libtensor partial traces and "
+    "index-free products are refused with NotImplementedError. R17b: format_contraction, format_scaling_comment, "
+    "format_prefactor refuse an unknown backend with NotImplementedError and _format_python_prefactor/"
+    "_format_cpp_prefactor refuse numbers outside integer/rational/sqrt/products; the scaling comment is a one-line "
+    "comment of the backend. R17c: decision table of translate_adcc_names / translate_libadc_names over configured and "
+    "look-alike tensor names (equality with <configured name>_<block>, never a prefix, never the default literal). "
+    "R17d: format_prefactor on a table of integers, rationals, square roots, products, signs, symbols with exponents "
+    "for both backends evaluates to the term's prefactor (C++ integer division is honoured); format_perm_symmetry on a "
+    "table of symmetries denotes 1 + sum factor*prod P (factors other than +-1 refused). "
+    "R17e: generate_code evaluated end to end with exploit_perm_sym, optimize_contractions and "
+    "term_memory_requirements as recorded black boxes and the library's own unoptimized_contraction evaluated through "
+    "(on an independent model of the Contraction constructor and the index factory): the symmetry analysis gets the "
+    "unmodified targets/spin/bra-ket symmetry/tensor class, the scheme builders get the separator-free targets, spin "
+    "and limits, the builder is selected by the flag, non-Expr input is refused, schemes with more than one outer "
+    "contraction are refused, and the whole program (all symmetry classes, all terms, pure-number terms, inner "
+    "contractions before the outer one) evaluates to sum_classes O_class(sum_terms prefactor * symbols * contraction) "
+    "for both backends and both builders, on four hand-built scenarios and on pseudo-random terms with closed schemes "
+    "(20 quick / 120 thorough). R17f: unoptimized_contraction evaluated on terms with exponents, deltas, symbols, "
+    "spin yields one hyper-contraction whose operand list is the term's tensors/deltas exponent-many times (names and "
+    "indices aligned) with the requested target indices; divisions are refused. Also R16a/R16b/R16g (scheme shape and "
+    "closure, owned by C16), which the emitted program depends on.")
 ASSUMPTIONS = [
-    "the scheme builders (optimize_contractions), the symmetry analysis (exploit_perm_sym) and Obj.longname are black "
-    "boxes here: generate_code is evaluated on hand-built valid schemes/symmetry classes (C16 / C15 decide those)",
-    "bounded: the tables of contractions, prefactors, symmetries and terms listed in the evidence; index ranges 2 (occ, "
-    "general) and 3 (virt); one fixed pseudo-random value per tensor element",
-    "libtensor semantics assumed by the interpreter: contract(l, ...) sums the listed labels over the product, "
-    "dot_product sums all labels, a product of labelled tensors is the outer product, results are assigned by label",
-    "the text of the scaling comment (N^k: O^n V^m) is not decided, only that it is a comment of the backend",
+    "optimize_contractions, exploit_perm_sym, term_memory_requirements and Obj.longname are black boxes here: "
+    "generate_code is evaluated on valid schemes/symmetry classes built by the rule (C16 / C15 decide the builders)",
+    "bounded: the tables of contractions, prefactors, symmetries and the pseudo-random terms listed in the evidence; "
+    "index ranges 2 (occ, general) and 3 (virt); one fixed pseudo-random value per tensor element",
+    "libtensor semantics assumed by the interpreter: contract(l, ...) sums the listed labels over the product of any "
+    "number of operands, dot_product sums all labels, a product of labelled tensors is the product by labels (a shared "
+    "label is elementwise, a label repeated on one tensor addresses its diagonal), results are assigned by label; "
+    "whether libtensor itself accepts n-ary dot_product/contract, a shared label in a direct product or a repeated "
+    "label is not decided",
+    "the text of the scaling comment (N^k: O^n V^m) is not decided, only that it is a one-line comment of the backend",
+    "exception messages are not decided, only the exception class",
 ]
 
 GC = "generate_code.generate_code:"
@@ -280,9 +289,15 @@ class Names:
                               "Contraction._determine_scaling": noop, "_determine_contracted_and_target": noop,
                               "_determine_scaling": noop})
             outs = sx.run(CO + "Contraction.__init__", args)
-            name = holder[-1].attrs.get("contraction_name") if holder else None
-            if len(outs) != 1 or outs[0].kind != "return" or not isinstance(name, str):
-                raise AnalysisError(f"C17: Contraction.__init__ does not set a concrete contraction_name: {outs}")
+            rec = holder[-1] if holder else None
+            name = rec.attrs.get("contraction_name") if rec is not None else None
+            if name is None and rec is not None:           # a computed attribute
+                try:
+                    name = sx.getattr(rec, "contraction_name", None)
+                except AnalysisError:
+                    name = None
+            if not isinstance(name, str) or not name:
+                raise AnalysisError(f"C17: Contraction.__init__ does not give a concrete contraction_name: {outs}")
             self.cache[ident] = name
         return self.cache[ident]
 
@@ -427,6 +442,9 @@ def contraction_cases(w, cname):
     add("scalar factor times pair", ["c0", "A_oo", "B_ov"], [(), (i, j), (j, a)], (i, a))
     add("look-alike names", [f"{ERI}x_oo", f"{FOCK}{FOCK}_ov"], [(i, j), (j, a)], (i, a))
     add("t2eri", ["t2eri_3", "B_ov"], [(i, j, k, a), (k, a)], (i, j))
+    p_, q_ = w("pq")
+    add("general-space indices", [f"{FOCK}_gg", "B_go"], [(p_, q_), (q_, i)], (p_, i))
+    add("diagonal d_ii -> i", ["A_oo"], [(i, i)], (i,))
     add("target index on both operands", ["A_oo", "B_oo"], [(i, k), (i, k)], (i,))
     # nested: the first operand is the result of an earlier contraction
     inner = contraction(cname, 7, ["A_oo", "B_ov"], [(i, j), (j, a)], (i, l))
@@ -503,7 +521,7 @@ def r17a(ctx):
         ctx.check(rule, fn, bool(outs) and all(o.kind == "raise" for o in outs), f"{backend}: unknown inner contraction refused",
                   f"{backend}: an inner contraction that was never emitted is silently used as an operand: {outs}",
                   key=f"{backend} cache miss")
-    ctx.floor(rule, "contractions executed", n, 24)
+    ctx.floor(rule, "contractions executed", n, 30)
     # libtensor: documented refusals
     i, j, a, b = w("ijab")
     sx = make_sx(ctx, "format_contraction[partial trace]")
